@@ -177,7 +177,7 @@ func runC10(r *Run) {
 // coincide with give-ups. Whenever nothing can run, no caller may be blocked while capacity is free.
 func runC10Rich(r *Run) {
 	sc := drawScen(r, scenOpts{
-		kinds: []string{"blocking", "blocking", "deadline", "queue", "queue", "lifo-ctor", "fifo-ctor", "fixedpool", "pool"}, strategies: []string{"simple", "precise"},
+		kinds: []string{"blocking", "blocking", "deadline", "queue", "queue", "lifo-ctor", "fifo-ctor", "fixedpool", "pool"}, strategies: []string{"simple", "precise", "lookup"},
 		maxClients: scale(5, 7), arrivals: []time.Duration{0, 0, ms, 2 * ms}, holds: []time.Duration{0, ms, 2 * ms},
 		qTimeouts: []time.Duration{3 * ms, time.Second, time.Hour}, bTimeouts: []time.Duration{0, 2 * ms, time.Hour},
 		deadlines: []time.Duration{5 * ms, time.Hour}, cancelPct: 40, cancelTimes: []time.Duration{ms, 2 * ms, 3 * ms},
